@@ -84,6 +84,9 @@ pub fn generate(kind: &str, seed: u64) -> Option<Vec<u8>> {
         // property blocks, attributes and redefinitions (c08_props.rs): random programs, the seed-th variant of the sweep
         "props" => gen_props(&mut rng).text.into_bytes(),
         "propone" => props_single(seed as usize)?.into_bytes(),
+        // call graphs with cycles through different symbols (c08_cyc.rs): random graphs, the seed-th variant of the sweep
+        "cyc" => gen_cyc(&mut rng).text.into_bytes(),
+        "cycone" => cyc_single(seed as usize)?.text.into_bytes(),
         "prog" => {
             let p = gen_program(&mut rng, &progen_opts());
             render(&p, &|_| true).into_bytes()
@@ -656,7 +659,7 @@ fn pick_mode(rng: &mut Rng, names: &[String]) -> Mode {
     }
 }
 
-fn pipeline_names(bytes: &[u8]) -> Vec<String> {
+pub fn pipeline_names(bytes: &[u8]) -> Vec<String> {
     let text = String::from_utf8_lossy(bytes);
     let mut out = Vec::new();
     let toks: Vec<&str> = text.split_whitespace().collect();
@@ -715,6 +718,28 @@ pub fn plan(rng: &mut Rng, scale: u64, thorough: bool, repo: &str, hist: &mut Hi
         }
         props_specs.push(format!("props:{}", seed));
     }
+    // call graphs (c08_cyc.rs): the whole sweep once per check + random graphs; again a generator of their own, requests
+    // appended after the property streams
+    let mut crng = Rng(rng.0 ^ 0x6379_636c_6573);
+    let mut cyc_specs: Vec<String> = Vec::new();
+    for c in cyc_categories() {
+        hist.0.entry(format!("cat/cyc/{}", c)).or_insert(0);
+    }
+    for k in 0..cyc_variant_count() {
+        if let Some(p) = cyc_single(k) {
+            for c in &p.cats {
+                hist.add(&format!("cat/cyc/{}", c));
+            }
+            cyc_specs.push(format!("cycone:{}", k));
+        }
+    }
+    for _ in 0..per(120) {
+        let seed = crng.next() >> 20;
+        for c in &gen_cyc(&mut Rng::new(seed)).cats {
+            hist.add(&format!("cat/cyc/{}", c));
+        }
+        cyc_specs.push(format!("cyc:{}", seed));
+    }
     // typed constant expressions in every constant context (typer/src/evaluator.rs)
     for _ in 0..per(200) {
         let seed = rng.next() >> 20;
@@ -750,13 +775,15 @@ pub fn plan(rng: &mut Rng, scale: u64, thorough: bool, repo: &str, hist: &mut Hi
     let mut reqs = Vec::new();
     let n_old = specs.len();
     specs.extend(props_specs);
+    let n_props = specs.len();
+    specs.extend(cyc_specs);
     for (si, spec) in specs.into_iter().enumerate() {
-        // the appended property streams draw from their own generator
-        let rng: &mut Rng = if si < n_old { &mut *rng } else { &mut prng };
+        // the appended property / call-graph streams draw from their own generators
+        let rng: &mut Rng = if si < n_old { &mut *rng } else if si < n_props { &mut prng } else { &mut crng };
         let names = super::materialise(&spec).map(|m| pipeline_names(&m.bytes)).unwrap_or_default();
         let heavy = spec.starts_with("repo:") || spec.starts_with("rmut:");
         // the preprocessor does not depend on the target beyond RSSL_TARGET_*: one HLSL flavour + Metal in quick
-        let two_targets = heavy || spec.starts_with("cx:") || spec.starts_with("pp:") || spec.starts_with("ppmut:") || spec.starts_with("synone:") || spec.starts_with("props:");
+        let two_targets = heavy || spec.starts_with("cx:") || spec.starts_with("pp:") || spec.starts_with("ppmut:") || spec.starts_with("synone:") || spec.starts_with("props:") || spec.starts_with("cyc:") || spec.starts_with("cycone:");
         // the sweep of property / attribute / redefinition variants is decided by the type checker: one target per variant in quick
         let one_target = spec.starts_with("propone:");
         let defs: Vec<(String, String)> = if rng.chance(1, 5) {
@@ -780,7 +807,9 @@ pub fn plan(rng: &mut Rng, scale: u64, thorough: bool, repo: &str, hist: &mut Hi
             vec![*rng.pick(&ALL_TARGETS)]
         } else if two_targets && !thorough { vec![*rng.pick(&[Tgt::Dx, Tgt::Vk, Tgt::VkBa]), Tgt::Msl] } else { ALL_TARGETS.to_vec() };
         for tgt in targets {
-            let mode = if heavy && names.is_empty() { if rng.chance(3, 4) { Mode::NoPipeline } else { pick_mode(rng, &names) } } else { pick_mode(rng, &names) };
+            // a call-graph program without a pipeline is compiled as a module (pipeline mode would only say "no pipeline")
+            let cyc_module = (spec.starts_with("cyc:") || spec.starts_with("cycone:")) && names.is_empty();
+            let mode = if cyc_module { Mode::NoPipeline } else if heavy && names.is_empty() { if rng.chance(3, 4) { Mode::NoPipeline } else { pick_mode(rng, &names) } } else { pick_mode(rng, &names) };
             reqs.push(Req { tgt, mode, layout: rng.chance(1, 2), defs: defs.clone(), input: spec.clone() });
         }
     }
@@ -798,3 +827,4 @@ include!("c08_pp.rs");
 include!("c08_syn.rs");
 include!("c08_cx.rs");
 include!("c08_props.rs");
+include!("c08_cyc.rs");
